@@ -277,6 +277,30 @@ class Repo:
                 return r
         return None
 
+    def class_index(self):
+        """class name -> module name, for every top-level class of the pywbem / pywbem_mock packages."""
+        idx = getattr(self, '_class_index', None)
+        if idx is None:
+            import re as _re
+            idx = {}
+            for pkg in ('pywbem', 'pywbem_mock', 'pywbem/_vendor/nocasedict'):
+                d = os.path.join(self.root, pkg)
+                if not os.path.isdir(d):
+                    continue
+                for fn in sorted(os.listdir(d)):
+                    if not fn.endswith('.py'):
+                        continue
+                    try:
+                        with open(os.path.join(d, fn), encoding='utf-8') as fp:
+                            txt = fp.read()
+                    except OSError:
+                        continue
+                    mod = pkg.replace('/', '.') + ('' if fn == '__init__.py' else '.' + fn[:-3])
+                    for m in _re.finditer(r'^class\s+(\w+)', txt, _re.M):
+                        idx.setdefault(m.group(1), mod)
+            self._class_index = idx
+        return idx
+
     def find_function(self, key):
         """key = 'path/file.py::Class.method' or 'path/file.py::func'."""
         rel, qual = key.split('::')
